@@ -8,7 +8,7 @@ from vlib import fmt_list
 PID = 'C19'
 HANDLES_ABNORMAL = True
 # a planning call that does not return IS the violation: small per-case limits, and stop a shard after two hangs
-IMPL_OPTS = dict(timeout=120, solo_timeout=40, max_timeouts=2)
+IMPL_OPTS = dict(timeout=120, solo_timeout=40, max_timeouts=2, deadline=300)
 RULE = ('encodation_plan with the hook counters: random structured inputs up to 3116 bytes, adversarial alternations (A1A1.., aAaA.., '
         'digit runs of every parity, bytes that keep several modes within a twelfth of a codeword of each other), all mode subsets and '
         'symbol lists; counters compared exactly with the model and with the proved bound; non-trivial = input of >= 8 bytes')
